@@ -90,6 +90,7 @@ class Tracer:
         self.last = {}      # id(obj) -> (v, t)
         self.keep = []
         self.suppress = 0
+        self.rebased = set()
         self.cids = {}
         self.tids = {}
         self.cache_attrs = set(spec.attrs) if spec else set()
@@ -210,8 +211,36 @@ class Tracer:
             return r
         TreeNeuron.copy = copy
 
+        # `x.__init__(other)` on a live object (prune_distal_to / prune_proximal_to): x becomes a copy of `other`
+        # and is re-stamped; in the model x continues the history of `other` with a `copy` event
+        o_init = TreeNeuron.__init__
+
+        def __init__(self, x=None, *a, **k):
+            re = T.tracked(self)
+            if re:
+                T.pre(self)
+                T.suppress += 1
+            try:
+                o_init(self, x, *a, **k)
+            finally:
+                if re:
+                    T.suppress -= 1
+            if re:
+                if isinstance(x, TreeNeuron) and id(x) in T.hist:
+                    T.hist[id(self)] = list(T.hist[id(x)]) + ['K']
+                    # `__dict__.update` keeps the receiver's own left-over cache attributes until the
+                    # `_clear_temp_attr()` that follows; that intermediate state is not compared (None)
+                    T.snaps[id(self)] = list(T.snaps[id(x)]) + [None]
+                    T.last[id(self)] = T.last[id(x)]
+                else:
+                    T.hist[id(self)], T.snaps[id(self)] = [], []
+                    T.cids, T.tids = {}, {}
+                    T.last[id(self)] = T.content(self)
+                T.rebased.add(id(self))
+        TreeNeuron.__init__ = __init__
+
+        import importlib
         for modname in ('navis.graph', 'navis.graph.graph_utils'):
-            import importlib
             mod = importlib.import_module(modname)
             o_cl = mod.classify_nodes
 
@@ -564,12 +593,17 @@ class Run:
     def check(self, label):
         ctx, case, x = self.ctx, self.case, self.x
         TR.pre(x)      # a trailing direct edit becomes a change event
+        if id(x) in TR.rebased:
+            TR.rebased.discard(id(x))
+            self.checked = 0
         toks, snaps = TR.hist[id(x)], TR.snaps[id(x)]
         states, bad = self.model()
         self.model_states = states
         # 1. per-primitive comparison (only the part not compared yet)
         for i in range(min(self.checked, len(toks)), len(toks)):
             st, sn = states[i], snaps[i]
+            if sn is None:
+                continue
             impl = f"stale={int(sn[0])} lock={sn[1]} stamp={'?' if sn[2] is None else int(sn[2])} attrs={','.join(sn[3])}"
             mod = (f"stale={int(st['stale'])} lock={st['lock']} stamp={'?' if sn[2] is None else int(st['m'])} "
                    f"attrs={','.join(sorted(st['ents']))}")
